@@ -37,7 +37,9 @@ def main():
         return a + 1j * rng.standard_normal(s) if cplx else a
 
     cases = []
-    for n in (1, 2, 3, 7, 16, 30):
+    w = json.loads(sys.argv[1])
+    sizes = (1, 2, 3, 7, 16, 30) + ((50,) if w.get("tier") == "thorough" else ())
+    for n in sizes:
         for cplx in (False, True):
             if n <= 7:
                 cases.append((f"n={n} non-symmetric", rnd(n, n, cplx=cplx) + n * np.eye(n), cplx, None))
@@ -64,10 +66,12 @@ def main():
         v = v0 if v0 is not None else rnd(n, cplx=cplx)
         v = v.astype(M.dtype) if cplx else np.real(v).astype(np.float64)
         ref = None
+        # breakdown is detected by a relative threshold: keep it well above rounding noise for starts in an invariant subspace
+        tol = 1e-10 if v0 is None else 1e-7
         for mi in sorted({1, 2, max(1, n // 2), n, n + 4}):
-            inp = f"arnoldi({name}, {'complex' if cplx else 'real'}, scale {scale:g}, max_iters={mi}, tol=1e-10), seed 15"
+            inp = f"arnoldi({name}, {'complex' if cplx else 'real'}, scale {scale:g}, max_iters={mi}, tol={tol:g}), seed 15"
             try:
-                Q, H, info = Ar.arnoldi(Dense(M), v, max_iters=mi, tol=1e-10)
+                Q, H, info = Ar.arnoldi(Dense(M), v, max_iters=mi, tol=tol)
             except Exception as e:
                 found(clause="no exception", input=inp, observed=f"{type(e).__name__}: {str(e)[:200]}", expected="a factorisation")
             Qd, Hd = np.asarray(Q.to_dense()), np.asarray(H.to_dense())
@@ -104,7 +108,7 @@ def main():
                 if not same:
                     found(clause="asking for more than n steps gives the same factorisation as n steps", input=inp, observed=f"Q {Qd.shape}, H {Hd.shape}", expected=f"Q {Qn.shape}, H {Hn.shape} (identical entries)")
             if mi >= n and v0 is None:
-                vals, vecs, _ = Ar.arnoldi_eigs(Dense(M), v, max_iters=mi, tol=1e-10)
+                vals, vecs, _ = Ar.arnoldi_eigs(Dense(M), v, max_iters=mi, tol=tol)
                 vals = np.asarray(vals)
                 full = np.linalg.eigvals(M)
                 tol_s = (1e-5 if n <= 7 else 5e-2) * max(1.0, np.abs(full).max())
